@@ -3,7 +3,7 @@
    The soundness theorem of a terminating call restated for the source-derived predicate. *)
 From Coq Require Import ZArith List Bool Lia.
 From CPL Require Import Model.Base Model.Engine Proofs.EngineProofs.
-From CPL Require Import gen.GenFuns GenProps.GenFunsEquivC06 GenProps.GenFunsExt.
+From CPL Require Import gen.GenFuns_C06 GenProps.GenFunsEquivC06 GenProps.GenFunsExt.
 Import ListNotations.
 
 Theorem C06_source_translation_agrees :
